@@ -9,6 +9,8 @@ import IodineModel.Drv.WireRead
 import IodineModel.Drv.WirePut
 import IodineModel.Drv.Server
 import IodineModel.Drv.Client
+import IodineModel.Drv.Downstream
+import IodineModel.Drv.Negot
 import IodineModel.Drv.Shell
 /-
 Line-protocol driver: one operation per input line, one result line per operation.
@@ -22,13 +24,15 @@ structure DrvState where
   slots : List Users.Slot := []
   srv : Drv.Server.St := {}
   cli : Drv.Client.St := {}
+  /-- the static `td1`, `td2` of `write_dns_nameenc` (op `wd`) -/
+  td : Nat × Nat := (0, 0)
 
 def firstSome (fs : List (List String → Option String)) (toks : List String) : Option String :=
   fs.findSome? (fun f => f toks)
 
 def step (st : DrvState) (line : String) : DrvState × String :=
   let toks := (line.trimAscii.toString.splitOn " ").filter (fun t => t ≠ "")
-  match firstSome [Drv.Codec.handle, Drv.Encoding.handle, Drv.Users.handle, Drv.Login.handle, Drv.Common.handle, Drv.WireRead.handle, Drv.WirePut.handle, Drv.Shell.handle] toks with
+  match firstSome [Drv.Codec.handle, Drv.Encoding.handle, Drv.Users.handle, Drv.Login.handle, Drv.Common.handle, Drv.WireRead.handle, Drv.WirePut.handle, Drv.Shell.handle, Drv.Downstream.handle, Drv.Negot.handle] toks with
   | some r => (st, r)
   | none =>
     match Drv.FwQuery.handle st.fw toks with
@@ -45,6 +49,9 @@ def step (st : DrvState) (line : String) : DrvState × String :=
       (Drv.Client.handle st.cli toks).map fun (cl, r) => ({ st with cli := cl }, r)
     match (if st.cli.configured then cliH <|> srvH else srvH <|> cliH) with
     | some r => r
+    | none =>
+    match Drv.Downstream.handleWd st.td toks with
+    | some (td, r) => ({ st with td := td }, r)
     | none => (st, "bad-op")
 
 partial def loop (h : IO.FS.Stream) (out : IO.FS.Stream) (st : DrvState) : IO Unit := do
